@@ -309,6 +309,11 @@ def steer(pkg, rng, with_dates):
     first.steps.append(("steerflags", M.Union((("SteerFlags", M.Named("SteerFlags")), ("int32", M.Prim("int32"))), nullable=rng.chance(0.5)), True))
     first.steps.append(("steerenum", M.Union((("SteerEnum", M.Named("SteerEnum")), ("bool", M.Prim("bool")), ("float64", M.Prim("float64"))), nullable=False), True))
     first.steps.append(("steerrec", M.Named("SteerRec"), True))
+    # flag sets that shrink from one stream item to the next (all symbols, one, none, ...), bare and as a record field: a
+    # reader that builds a set up in place must start from nothing for every item
+    pkg.files[fn].append(M.Record("SteerFlagRec", (), [("mode", M.Named("SteerFlags")), ("level", M.Prim("uint8"))]))
+    first.steps.append(("steerflagitems", M.Named("SteerFlags"), True))
+    first.steps.append(("steerflagrecs", M.Named("SteerFlagRec"), True))
     # a generic record whose type argument is what makes a field omittable
     pkg.files[fn].append(M.Record("SteerGen", ("T", "U"), [("id", M.Prim("int32")), ("payload", M.TParam("T")), ("extra", M.Vec(M.TParam("U")))]))
     first.steps.append(("steergen", M.Named("SteerGen", (M.Opt(M.Prim("int32")), M.Opt(M.Prim("string")))), True))
@@ -424,6 +429,9 @@ def model_task(task, ybin, root, prop):
                             ns_ = secs * 10 ** 9 + frac
                             out_.append(ns_ if sn_ == "steertimes" else (tr.next() % (4 * 10 ** 9)) * 10 ** 9 + ns_ - 10 ** 18)
                         vals[k_] = out_
+                    if sn_ in ("steerflagitems", "steerflagrecs") and r.fork("shrinkflags", sn_).chance(0.7):
+                        seq_ = [59, 1, 0, 8, 49, 3, 2][:r.fork("shrinkflags2", sn_).randint(3, 7)]
+                        vals[k_] = seq_ if sn_ == "steerflagitems" else [{"mode": v_, "level": j_} for j_, v_ in enumerate(seq_)]
                     if sn_ in ("steeru64", "steeri64") and pad_len is not None:
                         ir_ = r.fork("ints", sn_)
                         vg_ = V.ValueGen(cx.env, ir_, finite_only=finite, json_safe=finite)
